@@ -1,7 +1,7 @@
 """C11 — completion offers exactly the visible names (DESIGN §4 C11).
 
 theorems : lean/GoldModel/Props/C11.lean (complete_dot, complete_plain, dangling_parse,
-           dangling_resolves, complete_case; tables through Props/C18.lean `collect_wf`)
+           dangling_resolves, dot_node_resolves, complete_case; tables through Props/C18.lean `collect_wf`)
 tie      : correspondence `scope` — real ProjectManager::generate_completion_proposals over the
            materialised workspace vs the model, every dot position (complete, partial, dangling)
            and every statement start of every method
